@@ -132,7 +132,25 @@ def falsy_scalar_cases(tier):
                         yield (combo, sk, ck, caching)
 
 
+# wave 9 (C16-agent9): an inner value that is iterable WITHOUT being a collections.abc.Collection (only __iter__)
+ITERONLY = {"it:": ("iter!",), "it:3": ("iter!", 3), "it:12": ("iter!", 1, 2), "it:22": ("iter!", 2, 2)}
+
+
+def iteronly_cases(tier):
+    others = [(), (1,), (2, 0), 3]
+    for f in ITERONLY:
+        combos = [(f,)] + [(f, o) for o in others] + [(o, f) for o in others] + [(f, g) for g in ITERONLY]
+        if tier == "thorough":
+            combos += [(o, f, o2) for o in others for o2 in others]
+        for combo in combos:
+            for sk in SELS:
+                for ck in FALSY_CONDS:
+                    for caching in (True, False):
+                        yield (combo, sk, ck, caching)
+
+
 def cases(tier, inst):
+    yield from iteronly_cases(tier)
     yield from friend_cases(tier)
     yield from subparent_cases(tier)
     yield from falsy_scalar_cases(tier)
@@ -166,7 +184,7 @@ def wspec_of(combo):
                                     for i, inner in enumerate(combo[2:]))),)
     if combo and combo[0] == "obj":
         return (("P", "Item", tuple((("p", i % 2 + 1), ("items", ())) for i in range(len(combo) - 1))),)
-    return (("P", "Item", tuple((("p", i % 2 + 1), ("items", ("raw!", FALSY[inner]) if inner in FALSY else inner))
+    return (("P", "Item", tuple((("p", i % 2 + 1), ("items", ("raw!", FALSY[inner]) if inner in FALSY else ITERONLY[inner] if inner in ITERONLY else inner))
                                 for i, inner in enumerate(combo))),
             ("U", "Item", ((("p", 1),), (("p", 2),))))
 
@@ -206,7 +224,8 @@ def run_case(case, inst):
             exp = [(el, po) if sk == "ep_sub" else (el,) for po, el in pairs]
         else:
             exp = [tuple(ref.value(s, env) for s in q[3]) for env in ref.solutions(q)]
-        total = sum(len(i) if isinstance(i, tuple) else 1 for i in combo if not isinstance(i, str) or i in FALSY)
+        total = sum(len(i) if isinstance(i, tuple) else len(ITERONLY[i]) - 1 if i in ITERONLY else 1
+                    for i in combo if not isinstance(i, str) or i in FALSY or i in ITERONLY)
         try:
             obj, b = Q.build(q, world, inst)
             sel = b.sel[q]
